@@ -152,6 +152,9 @@ def _tags(p):
             "nfft:%s" % (n if not isinstance(n, int) else ("odd" if n % 2 else "even")), "N:" + ("odd" if len(p["x"]) % 2 else "even")]
 
 
+# kinds whose parameters describe the content of x: no derived degenerate records
+NO_DEGEN = {"tone"}
+
 KINDS = {
     "glue": {"impl": impl_glue, "model": model_glue, "oracle": oracle_shape, "rtol": 1e-9, "atol": 1e-300, "key": _key, "tags": _tags},
     "axis": {"impl": impl_axis, "model": model_axis, "post": post_axis, "rtol": 1e-13, "atol": 0.0, "key": _key, "tags": _tags},
@@ -188,6 +191,17 @@ def gen(rng, nrng, tier):
         need = {"pcorrelogram": 2 * cfg.get("lag", 0) + 1, "pminvar": 2 * cfg.get("order", 0)}.get(cls, 0)
         nfft = max([None, 64, 65, 97][(i // 3) % 4] or N, need, N) if (i // 3) % 4 else (None if need <= N else max(need, N))
         yield ("glue", {"cls": cls, "x": x, "nfft": nfft, "fs": [1.0, 250.0][i % 2], "cfg": cfg})
+    # correlogram lags at or above NFFT/2 (2*lag+1 > NFFT: the lag sequence wraps; lengths and axes are those of NFFT all the same)
+    for i in range(12 if tier == "quick" else 120):
+        cplx = bool(i % 2)
+        N = [32, 33, 24][i % 3]
+        x = C.test_data(nrng, N, cplx)
+        lag = [N // 2, N - 1, (3 * N) // 4, N // 2 + 1][(i // 2) % 4]
+        nfft = [None, N + 1, 2 * lag, 2 * lag - 1][(i // 3) % 4]
+        if isinstance(nfft, int) and nfft < N:
+            nfft = None
+        yield ("glue", {"cls": "pcorrelogram", "x": x, "nfft": nfft, "fs": [1.0, 250.0][i % 2],
+                        "cfg": {"lag": lag, "window": ["hamming", "rectangular", "hann"][i % 3]}})
     # the axes for every NFFT up to 200 (and a few larger) at "round" and awkward sampling rates: n*df is computed in floating point
     rates = [1.0, 3.0, 100.0, 250.0, 1000.0, 8000.0, 44100.0, 0.1, 1e-2, 1e5]
     for n in list(range(1, 201)) + [255, 256, 257, 1000, 1024, 4096]:
